@@ -657,9 +657,10 @@ def replay(data):
 
                 from harness import c07_pfid
 
-                bad, why = c07_pfid.float_case(cfg, rng, sys.modules[__name__])
-                if bad:
-                    return True, why
+                for env_, wide_ in ((data.get("env") if _ == 0 else None, False), (None, True)):
+                    bad, why = c07_pfid.float_case(cfg, rng, sys.modules[__name__], env=env_, wide=wide_)
+                    if bad:
+                        return True, why
             elif cfg["kind"] == "osc_irf_full":
                 from scipy.special import erf as cerf
 
